@@ -187,6 +187,11 @@ def enumerate_cases(tier):
                     c = {"exc": kind, "cdef": cdef, "rdef": rdef, "payload": p, "ct": True}
                     if applicable(c):
                         out.append(c)
+    # the class is raised once before the callee define()s it
+    for kind in ("dec_kw", "dec_args", "expl_kw", "expl_args"):
+        for rdef in ("none", "same"):
+            out.append({"exc": kind, "cdef": True, "rdef": rdef, "payload": 4 if KINDS[kind][1] else 1,
+                        "late_def": True})
     # payload that no serializer can carry
     for rdef in ("none",):
         out.append({"exc": "undef_custom", "cdef": False, "rdef": rdef, "payload": 0,
@@ -229,7 +234,7 @@ def main(ctx):
               "mode:coro", "mode:interrupt", "ser:json", "ser:msgpack", "ser:cbor", "ser:ubjson",
               "unserializable_reported", "redefined_class_surfaced",
               "premapped_uri_class_surfaced", "behind_check_types", "carried_uri_of_defined_class",
-              "with_payload_codec"):
+              "with_payload_codec", "defined_after_first_raise"):
         ctx.require(n)
 
 
@@ -469,7 +474,9 @@ def run_case(case, mode, tb, ser, codec=False):
             raise RuntimeError("onUserError hook failed")
         callee.onUserError = failing_hook
     exp_uri, exp_args, exp_kwargs = expected_wire(case)
-    rcls = setup_registries(case, callee, caller, exp_uri)
+    # late_def: the callee raises the class once BEFORE it define()s it (generic URI), then defines
+    # it; the measured call must carry the registered URI all the same
+    rcls = None if case.get("late_def") else setup_registries(case, callee, caller, exp_uri)
     pending = []
     invoked = []
     fwname = H.fw()
@@ -519,6 +526,12 @@ def run_case(case, mode, tb, ser, codec=False):
         r = b.do(callee.register(proc, "com.myapp.proc"))
     if not r or r[0][0] != "ok":
         raise RuntimeError("register failed: %r" % (r,))
+    if case.get("late_def"):
+        warm = b.do(caller.call("com.myapp.proc", 7, x=8))
+        if not warm or warm[0][0] == "ok" or len(invoked) != 1:
+            raise RuntimeError("late_def warm-up: %r invoked=%r" % (warm, invoked))
+        del invoked[:]
+        rcls = setup_registries(case, callee, caller, exp_uri)
     box = b.do(caller.call("com.myapp.proc", 7, x=8))
     if mode == "interrupt":
         if box:
@@ -541,6 +554,8 @@ def run_case(case, mode, tb, ser, codec=False):
     obs = {"wire": None, "outcome": None, "escapes": [repr(e)[:200] for _, e in b.escapes]}
     # ---- (1) ERROR on the callee's wire ---------------------------------------
     wires = b.wire_of("callee", M.Error)
+    if case.get("late_def") and len(wires) == 2:
+        wires = wires[1:]
     w_uri = w_args = w_kwargs = None
     if len(wires) != 1:
         bad.append(("lost-at-callee", "callee sent %d ERROR messages (expected 1); user errors %s" % (
@@ -694,6 +709,10 @@ def job(a):
     samples = []
     evals = 0
     for case in a["cases"]:
+        if case.get("late_def"):
+            if mode != "sync":
+                continue
+            stats["defined_after_first_raise"] = stats.get("defined_after_first_raise", 0) + 1
         obs, bad = run_case(case, mode, tb, ser, codec=bool(a.get("codec")))
         evals += 1
         if a.get("codec"):
